@@ -12,7 +12,8 @@ for e in "$@"; do
   D=$OUT/$P/$M
   [ -f $D/patch.diff ] && [ -f $D/demo.rs ] || { echo "$P-$M: missing files in $D"; continue; }
   F=$(tr -d ' \n' < $D/features.txt 2>/dev/null)
-  /verif/tools/confirm_seed.sh $D $P-$M $P "$F"
+  X=""; [ -f $D/release.txt ] && X="--release"   # a change that only manifests without debug assertions
+  /verif/tools/confirm_seed.sh $D $P-$M $P "$F" "$X"
   ids="$ids $P-$M"
 done
 ONLY="$ids" /verif/tools/seed_matrix.sh
